@@ -99,6 +99,9 @@ pub struct SrvCfg {
     pub via_env: bool,
     /// health_check_port is written with the same number as `port` (TCP and UDP port spaces are separate)
     pub health_same_port: bool,
+    /// signals the server inherits as IGNORED from whoever starts it (nohup: SIGHUP; a background job of a
+    /// non-interactive shell: SIGINT and SIGQUIT)
+    pub inherit_ignored: Vec<i32>,
     /// raw extra settings (key, value) appended as written
     pub extra: Vec<(String, String)>,
     /// extra environment variables for the server process (not settings), e.g. TZ
@@ -196,6 +199,18 @@ impl ServerProc {
             cmd.arg(&path);
         }
         cmd.current_dir(&dir).stdin(Stdio::null()).stdout(Stdio::piped()).stderr(Stdio::piped());
+        if !cfg.inherit_ignored.is_empty() {
+            use std::os::unix::process::CommandExt;
+            let sigs = cfg.inherit_ignored.clone();
+            unsafe {
+                cmd.pre_exec(move || {
+                    for s in &sigs {
+                        libc::signal(*s, libc::SIG_IGN);
+                    }
+                    Ok(())
+                });
+            }
+        }
         let mut child = cmd.spawn().map_err(|e| format!("spawn {}: {}", SERVER_BIN, e))?;
         let out = Arc::new(Mutex::new(Vec::new()));
         let readers = vec![spawn_reader(child.stdout.take().unwrap(), out.clone()), spawn_reader(child.stderr.take().unwrap(), out.clone())];
